@@ -1690,7 +1690,13 @@ impl<'v> World<'v> {
                 } else {
                     let kind = if op == OpK::Pub1 { ReqKind::Pub1 } else { ReqKind::Pub2 };
                     let seq = self.sh.borrow_mut().oracle.new_request(kind, id);
-                    (Some(seq), vec![seq; size.max(1)])
+                    (Some(seq), vec![seq; size])
+                };
+                // an empty payload cannot name its request: a one-letter topic does (the shortest PUBLISH there is)
+                const LETTERS: [&str; 26] = ["A", "B", "C", "D", "E", "F", "G", "H", "I", "J", "K", "L", "M", "N", "O", "P", "Q", "R", "S", "T", "U", "V", "W", "X", "Y", "Z"];
+                let (topic, props, ref_props) = match seq {
+                    Some(seq) if payload.is_empty() => (LETTERS[seq as usize % 26], Vec::new(), Vec::new()),
+                    _ => (topic, props, ref_props),
                 };
                 {
                     let want = crate::oracle::Want {
@@ -2577,7 +2583,7 @@ pub fn run_inner(
                 .expect("will");
         } else {
             if cfg.auth {
-                builder = builder.auth("user", b"pw").expect("auth");
+                builder = builder.auth("user", if cfg.empty_password { b"" } else { b"pw" }).expect("auth");
             }
             if cfg.will {
                 builder = builder
